@@ -49,7 +49,7 @@ func c02Atoms(tier string) []c02Atom {
 	}
 	return append(core, []c02Atom{
 		{Text: `a=1.0`, Col: "a", Op: "=", Lit: "1.0", Num: true, Where: `a=1.0`},
-		{Text: `a="1"`, Col: "a", Op: "=", Lit: "1", Num: true},
+		{Text: `a="1"`, Col: "a", Op: "=", Lit: "1"}, // a string literal that reads as a number: against numbers the coercion is not fixed by the statement
 		{Text: `a<2.5`, Col: "a", Op: "<", Lit: "2.5", Num: true, Where: `a<2.5`},
 		{Text: `a=2.5`, Col: "a", Op: "=", Lit: "2.5", Num: true, Where: `a=2.5`},
 		{Text: `a>=2`, Col: "a", Op: ">=", Lit: "2", Num: true, Where: `a>=2`},
@@ -213,6 +213,9 @@ func c02EvalAtom(a *c02Atom, ev *MEvent) int {
 		}
 		if strings.ContainsAny(a.Lit, "*?") {
 			return mUndef
+		}
+		if _, err := strconv.ParseFloat(a.Lit, 64); err == nil {
+			return mUndef // a quoted literal that reads as a number against a number: string-vs-number coercion, not fixed
 		}
 		if a.Op == "=" {
 			return mFalse // a number never equals a non-numeric word
